@@ -381,7 +381,7 @@ class TokenizerState:
         endprog.join(self, end)
         self.pos = end
         epos = (self.lnum, end)
-        return TokenInfo(tok, endprog.text, endprog.start, epos, endprog.contline)
+        return TokenInfo(tok, endprog.full_text(), endprog.start, epos, endprog.full_contline())
 
     def match(self, pattern: str | re.Pattern[str]) -> re.Match[str] | None:
         pattern = _compile(pattern) if isinstance(pattern, str) else pattern
@@ -443,17 +443,33 @@ class EndProg:
     quote: str = ""
     raw: bool = False  # an f-string with an r prefix
 
+    # text and contline grow by one piece per physical line: the pieces are collected in lists and joined when the
+    # token is made (appending to a str attribute copies everything read so far, for every line of a long string)
+    more_text: list[str] = dataclasses.field(default_factory=list)
+    more_lines: list[str] = dataclasses.field(default_factory=list)
+
     def join(self, state: TokenizerState, end: int) -> None:
-        self.text += state.line[state.pos : end]
+        self.more_text.append(state.line[state.pos : end])
 
     def join_line(self, state: TokenizerState) -> None:
-        self.text += state.line[state.pos :]
-        self.contline += state.line
+        self.more_text.append(state.line[state.pos :])
+        self.more_lines.append(state.line)
+
+    def has_text(self) -> bool:
+        return bool(self.text) or any(self.more_text)
+
+    def full_text(self) -> str:
+        return self.text + "".join(self.more_text)
+
+    def full_contline(self) -> str:
+        return self.contline + "".join(self.more_lines)
 
     def reset(self, start: tuple[int, int]) -> None:
         self.start = start
         self.text = ""
         self.contline = ""
+        self.more_text.clear()
+        self.more_lines.clear()
 
 
 def next_statement(
@@ -629,7 +645,7 @@ def handle_fstring_progs(state: TokenizerState, endprog: EndProg) -> Generator[T
         raise TokenError("f-string: single '}' is not allowed", (state.lnum, end - 1))
     if endmatch.lastgroup == "End":  # quote match
         middle_end = end - len(endprog.quote)
-        if (middle_end > state.pos) or endprog.text:
+        if (middle_end > state.pos) or endprog.has_text():
             yield state.prog_token(middle_end, Token.FSTRING_MIDDLE)
         yield TokenInfo(
             Token.FSTRING_END,
@@ -641,7 +657,7 @@ def handle_fstring_progs(state: TokenizerState, endprog: EndProg) -> Generator[T
         state.pop_mode()
     else:  # "{" or "}"
         middle_end = end - 1
-        if (middle_end > state.pos) or (endprog.text):  # has buffer
+        if (middle_end > state.pos) or endprog.has_text():  # has buffer
             yield state.prog_token(middle_end, Token.FSTRING_MIDDLE)
         if endmatch.lastgroup == "LBrace":
             yield TokenInfo(
